@@ -74,6 +74,20 @@ def deduplicate_attrs(known, mapping):
     return variables | valmap(compose_left(second, first), attrs)
 
 
+def flatten_nested(mapping):
+    # per-line structs (e.g. `platform_velocity`: x, y, z) become one variable per component
+    def _flatten():
+        for key, value in mapping.items():
+            if not isinstance(value, list) or not value or not isinstance(value[0], dict):
+                yield key, value
+                continue
+
+            for name, values in merge_with(list, *value).items():
+                yield f"{key}_{name}", values
+
+    return dict(_flatten())
+
+
 def transform_line_metadata(metadata):
     ignored = [
         "preamble",
@@ -111,6 +125,7 @@ def transform_line_metadata(metadata):
         curry(starcall, curry(merge_with, list)),
         curry(remove_spares),
         curry(dissoc, ignored),
+        curry(flatten_nested),
         curry(valmap, compose_left(separate_attrs, curry(cons, "rows"), tuple)),
         curry(deduplicate_attrs, known_attrs),
         curry(apply_overrides, dtype_overrides),
